@@ -141,3 +141,14 @@ def register_t1b(J):
                  defines=["-DPART_INITIALIZE=1"], timeout=900, mem_gb=6, expect=[r"initialize\.postcondition"],
                  statement="C20: initialize() determines EVERY field of the slot (group interned, key/value placeholders, no "
                            "comments, line number 0, no quotes) and writes nothing but that slot - any array size, any index."))
+
+
+def register_setbool(J):
+    J.append(Job("setbool", ["C08", "C11"], "harness/setbool.c", sources=["lib/keyfile.c", "lib/helpers.c"],
+                 stubs=["stubs/numtext.c"], contracts=["contracts/keyfile_getters.h", "stubs/asprintf_shim.h"],
+                 enforce="setBoolValueNum", unwind=9, tier="T2", defines=["-DVALCAP=6"], timeout=600, mem_gb=6,
+                 expect=[r"setBoolValueNum\.postcondition"], bounds="text < 6 bytes (the setter hashes the lower-cased text)",
+                 model="M-real",
+                 statement="C08: for every spelling (any letter case) of 1/yes/true the boolean setter stores \"true\", of "
+                           "0/no/false it stores \"false\", and succeeds; a refused text leaves the old value; frame: only "
+                           "entry[num].value. With getbool.text (T1) this gives the boolean round trip."))
